@@ -39,6 +39,13 @@ fn dispatch(op: &str, args: &[Sexp]) -> String {
         "serde.gdsbytes" => crate::props::c18::op_gdsbytes(args),
         "serde.lef" => crate::props::c18::op_lef(args),
         "serde.lefspecial" => crate::props::c18::op_lefspecial(args),
+        "lef.lex" => crate::props::lef::op_lex(args),
+        "lef.enum" => crate::props::lef::op_enum(args),
+        "lef.dbu" => crate::props::lef::op_dbu(args),
+        "lef.read" => crate::props::lef::op_read(args),
+        "lef.wr" => crate::props::lef::op_wr(args),
+        "lef.crash" => crate::props::lef::op_crash(args),
+        "lef.big" => crate::props::lef::op_big(args),
         "tf.apply" => crate::props::c12::op_apply(args),
         "tf.general" => crate::props::c12::op_general(args),
         "raw.flatten" => crate::props::c12::op_flatten(args),
